@@ -5,6 +5,7 @@ import FlVerif.Lemmas.CodeFllImportEngine
 import FlVerif.Lemmas.CodeFllImportTerm
 import FlVerif.Lemmas.CodeTermParse
 import FlVerif.Lemmas.CodeTermParseOps
+import FlVerif.Lemmas.CodeRaisedStr
 import FlVerif.Lemmas.CodeBlockActImport   -- the factory look-ups of the importer (`FllImporter.tnorm` / `snorm`)
 
 /-! # C14 — FuzzyLite Language export / import round-trips engines
@@ -647,6 +648,30 @@ theorem code_fllExportEngine (c : Cfg) (indent sep : String) (e : Engine) :
     ∃ σ, Gen.Code.FllExporter_engine.run c indent sep e {} = .ok σ ∧
       σ.ret = some (Py.Fll.join sep ((fllExport c e).map (Py.Fll.lineText indent c.d) ++ [""])) :=
   Py.Fll.code_fllExportEngine c indent sep e
+
+/-- **`Operation.str(x, delimiter)`** for every value (`Py.Raised.SVal`: a string, a float, a nested sequence, a NumPy
+    array of 0 / 1 / 2 / more dimensions, any other object by its `str`): the translated function returns the string of
+    the model `Py.Raised.opStr` - a float is `f"{x:.{d}f}"`, i.e. the printed number `Dec.render d (Dec.fmt d x)` (the
+    external of all the exporter ties above, `opStr_float`); the elements of a sequence / array are printed by the
+    recursive call **under the default delimiter** (the source does not pass `delimiter` on) and joined by `delimiter`;
+    the rows of a matrix are joined by line feeds; the recursion bound of the translation is never reached -/
+theorem code_opStr (d : ℕ) (x : Py.Raised.SVal) (delimiter : String) :
+    ∃ σ, Gen.Code.Op_str.run d x delimiter {} = .ok σ ∧ σ.ret = some (Py.Raised.opStr d delimiter x) :=
+  Py.Raised.code_opStr d x delimiter
+
+/-- on a float `Op.str` is the printed number the exporter ties use as the meaning of `Op.str(x)` -/
+theorem opStr_float (d : ℕ) (delimiter : String) (x : Num) :
+    Py.Raised.opStr d delimiter (.num x) = Dec.render d (Dec.fmt d x) := rfl
+
+/-- **`FllExporter.to_string(instance)`**: the dispatch on the class of the object (`Py.Raised.FlObj`; the `isinstance`
+    tests follow the class hierarchy: an `InputVariable` / `OutputVariable` is a `Variable`, the source tests them
+    first).  Every fuzzylite object is printed by the method of its class - whose text is what the ties above prove
+    that method returns -, anything else is a `TypeError`. -/
+theorem code_fllToString (c : Cfg) (indent sep : String) (o : Py.Raised.FlObj) :
+    match Py.Raised.toString c indent sep o with
+    | none => Gen.Code.FllExporter_to_string.run c indent sep o {} = .error .internal
+    | some s => ∃ σ, Gen.Code.FllExporter_to_string.run c indent sep o {} = .ok σ ∧ σ.ret = some s :=
+  Py.Raised.code_fllToString c indent sep o
 
 /-- with the default indent and separator the text of `code_fllExportEngine` is the text the driver renders from the
     model lines (`Op.FllIO.renderLines`), i.e. the text the correspondence runs compare with the real exporter's -/
